@@ -38,6 +38,8 @@ def kind_class(kind):
     k = kind.lower()
     if 'derived through a shared borrow' in k or 'dangling reference' in k:
         return 'provenance'
+    if 'already freed' in k:
+        return 'use-after-free'
     if 'never freed' in k:
         return 'block-leak'
     if 're-boxed under a layout' in k:
@@ -242,6 +244,18 @@ def replay_file(prop, rec):
             return True, 'Miri (Tree Borrows) on a driver that writes through every mutable view of the API: Undefined Behavior: %s%s' % (m.group(1)[:200], (' at ' + loc.group(1)) if loc else '')
         if 'every mutable view accepted the writes' in out:
             return False, 'not reproduced: Miri (Tree Borrows) accepts a write through every mutable view'
+        return False, 'Miri run failed: ' + out[-300:]
+    if kc == 'use-after-free':
+        # the drop counts come out right natively (the freed block usually still holds the bits): the native sweep runs under Miri, which
+        # reports the access to the freed block
+        crate = os.path.dirname(os.path.dirname(os.path.dirname(exe)))
+        rc, out, wall = urun(['cargo', '+nightly', 'miri', 'run', '--offline', '--', sc, 'double-drop'], cwd=crate, timeout=2400,
+                             env=dict(base_env(), MIRIFLAGS='-Zmiri-tree-borrows -Zmiri-ignore-leaks'))
+        m = re.search(r'error: Undefined Behavior: (.*)', out)
+        if m:
+            return True, 'Miri on the native sweep of %s (N <= 4, every panic point): Undefined Behavior: %s' % (sc, m.group(1)[:240])
+        if 'NOT-REPRODUCED' in out or 'REPRODUCED' in out:
+            return False, 'not reproduced: Miri accepts the native sweep of %s' % sc
         return False, 'Miri run failed: ' + out[-300:]
     # the guards' Drop impls are reached natively through the operations that use them
     via = {'drop.ArrayConsumer': ['map', 'fold', 'zip'], 'drop.IntrusiveArrayBuilder': ['generate', 'try_from_iter'], 'drop.ArrayBuilder': ['generate', 'try_from_iter']}.get(sc, [sc])
